@@ -24,6 +24,44 @@ pub struct Recorder {
     pub samples: Vec<Value>,
 }
 
+/// C14: for adaptive-fee swaps, the tick groups every step's price segment spans (computed with the
+/// program's own tick math, whose correctness is C09's business) and the end-of-swap facts the
+/// specification needs.
+fn annotate_adaptive(sw: &mut Value) {
+    let num = |v: &Value| -> u128 { v.as_str().map(|s| s.parse().unwrap()).unwrap_or_else(|| v.as_u64().unwrap_or(0) as u128) };
+    let tick_of = |p: u128| whirlpool::math::tick_index_from_sqrt_price(&p);
+    let mut gs: i64 = 0;
+    let mut major_ticks: i64 = 0;
+    if let Some(steps) = sw["steps"].as_array_mut() {
+        for st in steps.iter_mut() {
+            if st["fm"]["kind"] != "adaptive" {
+                continue;
+            }
+            gs = st["fm"]["group_size"].as_i64().unwrap();
+            major_ticks = st["fm"]["major_ticks"].as_i64().unwrap();
+            let (p0, p1) = (num(&st["p0"]), num(&st["p1"]));
+            let (lo, hi) = (p0.min(p1), p0.max(p1));
+            let (tlo, thi) = (tick_of(lo) as i64, tick_of(hi) as i64);
+            let gmin = tlo.div_euclid(gs);
+            let hi_exact = price_of(thi as i32) == hi;
+            let gmax = if hi_exact && thi.rem_euclid(gs) == 0 { thi.div_euclid(gs) - 1 } else { thi.div_euclid(gs) };
+            st["gmin"] = json!(gmin);
+            st["gmax"] = json!(gmax.max(gmin));
+            st["moved"] = json!(p0 != p1);
+        }
+    }
+    if gs > 0 {
+        let end = if sw["done"] == true { num(&sw["result"]["sqrt_price"]) } else { 0 };
+        if end > 0 {
+            let t = tick_of(end) as i64;
+            sw["endGroup"] = json!(t.div_euclid(gs));
+            sw["endOnBoundary"] = json!(price_of(t as i32) == end && t.rem_euclid(gs) == 0);
+        }
+        sw["majorFactor"] = nu(price_of(major_ticks as i32));
+        sw["startGroup"] = json!(sw["pool"]["tick"].as_i64().unwrap().div_euclid(gs));
+    }
+}
+
 pub fn price_of(t: i32) -> u128 {
     whirlpool::math::sqrt_price_from_tick_index(t)
 }
@@ -150,6 +188,9 @@ impl Recorder {
             .map(|mut v| {
                 let done = v["result"].is_object();
                 v["done"] = Value::Bool(done);
+                if v["adaptive"] == true {
+                    annotate_adaptive(&mut v);
+                }
                 v
             })
             .collect();
